@@ -5,10 +5,39 @@ from ..model import component_model, tmpl_match, EVAL_METHODS, LIN_METHODS
 # Components that no public group instantiates (listed in the evidence as
 # out-of-scope, never silently skipped).  Confirmed by the group model
 # (rules/groups.py) on every run.
-NEVER_INSTANTIATED = {
-    "SparWithinWing": "no group instantiates it (checked against the group model)",
-    "Energy": "no group instantiates it (checked against the group model)",
-}
+class _Scope(dict):
+    """Components that no public group instantiates, computed from the group
+    model on first use (never a frozen list)."""
+
+    _done = False
+
+    def _fill(self):
+        if self._done:
+            return
+        self._done = True
+        from ..groups import STANDALONE_API, instantiated_classes
+        from ..load import get_repo
+
+        repo = get_repo()
+        reach = instantiated_classes(repo)
+        for c in repo.components():
+            if c.name not in reach and c.name not in STANDALONE_API and c.name not in POSTPROCESSING:
+                dict.__setitem__(self, c.name, "no public group instantiates it and it is not documented stand-alone API (group model, this run)")
+
+    def __contains__(self, k):
+        self._fill()
+        return dict.__contains__(self, k)
+
+    def __getitem__(self, k):
+        self._fill()
+        return dict.__getitem__(self, k)
+
+    def items(self):
+        self._fill()
+        return dict.items(self)
+
+
+NEVER_INSTANTIATED = _Scope()
 
 POSTPROCESSING = {
     "SurfaceContour": "mphys post-processing writer, no derivatives",
